@@ -63,6 +63,9 @@ def run_case(V, case):
     async def main(loop):
         clock = loop.time
         ws = wire.WireStack(loop, V, trace)
+        # how the transport treats an exception escaping the receive callback alternates between the
+        # two behaviours real transports have (see wire.WireStack._fatal_error)
+        ws.transport_errors = "close" if (case.get("at") or 0) % 2 else "log"
         ws.install_serial()
         phase = ["bringup"]
         state = {"registered": False, "closed": False, "failed": False, "ez": None}
